@@ -9,6 +9,7 @@ import (
 
 	"rscheck/core"
 	"rscheck/driver"
+	"rscheck/rules/arith"
 	"rscheck/rules/c01"
 	"rscheck/rules/c02"
 	"rscheck/rules/c03"
@@ -60,10 +61,11 @@ func Defs() []driver.PropDef {
 		wrap(c02.Def, "X1 SCRIPT LOAD is executed with Do and its error returned.", func(c *core.Ctx) {
 			xtra.ScriptLoadByDo(c, "X1.script")
 		}),
-		wrap(c03.Def, "X1 every test of the fixed-target-database option uses the sentinel -1 (db 0 is a legal fixed target); X2 no blocking channel send on the sender's path; X3 the key-filter verdict tested for a command was computed for that command.", func(c *core.Ctx) {
+		wrap(c03.Def, "X1 every test of the fixed-target-database option uses the sentinel -1 (db 0 is a legal fixed target); X2 no blocking channel send on the sender's path; X3 the key-filter verdict tested for a command was computed for that command; C10's rule that decoded arguments never alias the reader's buffer (they are queued until the next flush) is re-run here.", func(c *core.Ctx) {
 			xtra.TargetDBSentinel(c, "X1.sentinel", dbSync)
 			xtra.SenderNeverBlocks(c, "X2.nonblocking")
 			xtra.VerdictFresh(c, "X3.verdict")
+			xtra.Import(c, "C10", c10.Run, xtra.HasPrefix("R8.alias/"))
 		}),
 		wrap(c04.Def, "X1 the MULTI/EXEC+checkpoint envelope is skipped only for a batch that is a lone PING; X2 all checkpoint HSETs go to ds.checkpointName, the hash the loader reads; C14's field-name agreement rules (reader/writer) are re-run here.", func(c *core.Ctx) {
 			xtra.EnvelopeOnlyOmittedForLonePing(c, "X1.envelope")
@@ -77,11 +79,11 @@ func Defs() []driver.PropDef {
 			xtra.Import(c, "C15", c15.Run, xtra.HasPrefix("R3.tag/", "R1.mask/", "R2.step/utils.crc16"))
 			xtra.Import(c, "C13", c13.Run, xtra.HasPrefix("R4.caller/", "R5.predicate/"))
 		}),
-		wrap(c07.Def, "X1 SCRIPT LOAD by Do; X2 CmdRestore.Main's wg.Add counts the input files for which Done is called; X3 fixed-target-db sentinel; C02's route rules (what a worker does with one entry) are re-run here.", func(c *core.Ctx) {
+		wrap(c07.Def, "X1 SCRIPT LOAD by Do; X2 CmdRestore.Main's wg.Add counts the input files for which Done is called; X3 fixed-target-db sentinel; C02's route, TTL and key_exists-policy rules (what a worker does with one entry) are re-run here.", func(c *core.Ctx) {
 			xtra.ScriptLoadByDo(c, "X1.script")
 			xtra.RestoreMainWaitGroup(c, "X2.waitgroup")
 			xtra.TargetDBSentinel(c, "X3.sentinel", dbSync, run)
-			xtra.Import(c, "C02", c02.Run, notKey("element/consults-policy", xtra.HasPrefix("R1.route/", "R2.ttl/")))
+			xtra.Import(c, "C02", c02.Run, notKey("element/consults-policy", xtra.HasPrefix("R1.route/", "R2.ttl/", "R3.policy/")))
 		}),
 		wrap(c08.Def, "X1 the ACK goroutine ends when its ACK cannot be sent; C04's stored-offset and PSYNC-continue rules are re-run here.", func(c *core.Ctx) {
 			xtra.AckGoroutineStopsOnError(c, "X1.ack-stops")
@@ -92,7 +94,9 @@ func Defs() []driver.PropDef {
 		wrap(c11.Def, "X1 the end-of-file check returns success only after the two CRC values were found equal.", func(c *core.Ctx) {
 			xtra.FooterRejectsEveryMismatch(c, "X1.footer")
 		}),
-		c12.Def,
+		wrap(c12.Def, "X1 the integer arms of both ziplist entry decoders are decided directly in a bit-field domain (width, byte order, sign extension).", func(c *core.Ctx) {
+			arith.CheckZiplistInts(c, "X1.ziplist")
+		}),
 		wrap(c13.Def, "X1 the verdict tested for a command was computed for that command.", func(c *core.Ctx) {
 			xtra.VerdictFresh(c, "X1.verdict")
 		}),
@@ -109,8 +113,9 @@ func Defs() []driver.PropDef {
 			xtra.TargetDBSentinel(c, "X3.sentinel", run, "redis-shake/common")
 			xtra.Import(c, "C02", c02.Run, xtra.HasPrefix("R4.expand/", "R5.batch/", "R8.siblings/"))
 		}),
-		wrap(c17.Def, "C12's decoder rules (grammar per value type, event wiring, adaptor, sibling arithmetic) are re-run here: decode mode prints what DecodeDump yields.", func(c *core.Ctx) {
+		wrap(c17.Def, "C12's decoder rules (grammar per value type, event wiring, adaptor, sibling arithmetic) are re-run here: decode mode prints what DecodeDump yields; X1 the integer arms of both ziplist entry decoders are decided directly (width, byte order, sign extension).", func(c *core.Ctx) {
 			xtra.Import(c, "C12", c12.Run, xtra.HasPrefix("R2.grammar/readObject", "R3.wiring/decoder", "R3.wiring/adaptor", "R6.siblings/", "R6.length/", "R1.ids/decoder"))
+			arith.CheckZiplistInts(c, "X1.ziplist")
 		}),
 		c18.Def,
 		c19.Def,
